@@ -262,7 +262,8 @@ Qed.
 Lemma telstate_keys :
   l0_cbid_key = "capture_block_id" /\ l0_stream_key = "stream_name" /\ l0_type_key = "stream_type"
   /\ ts_inherit_key = "inherit" /\ fl_type_key = "stream_type" /\ fl_src_key = "src_streams"
-  /\ fl_archived_key = "sdp_archived_streams" /\ ts_sep = "_".
+  /\ fl_archived_key = "sdp_archived_streams" /\ ts_sep = "_"
+  /\ ds_chunk_info_key = "chunk_info" /\ fl_chunk_info_key = "chunk_info" /\ ds_dumps_array = "correlator_data".
 Proof. repeat split; reflexivity. Qed.
 
 (* ---------- flag stream upgrade ---------- *)
@@ -396,7 +397,7 @@ Proof.
   rewrite prefix_order_on.
   destruct (negb (check_stream_type (astr (aget st vals (spec_prefixes_on [""] cb streams) l0_type_key)))); [reflexivity|].
   destruct (ds_reads_chunk_info (m_store m) (has_ts m)).
-  - destruct (aget st vals (spec_prefixes_on [""] cb streams) fl_chunk_info_key) as [[id [x|x|d rest|]]|] eqn:E;
+  - destruct (aget st vals (spec_prefixes_on [""] cb streams) ds_chunk_info_key) as [[id [x|x|d rest|]]|] eqn:E;
       try reflexivity.
     rewrite (map_ext _ _ (fstream_of_with_spec st vals (spec_prefixes_on [""] cb streams) cb)).
     destruct (if upgrade_on m then _ else _) as [fs|]; [|reflexivity].
